@@ -21,6 +21,13 @@ CHECKS["C17"] = dict(
     ref="4/C17",
 )
 
+CHECKS["C01"] = dict(
+    technique="differential runtime oracle: real renders of grammar-generated programs compared with an independent reference interpreter over the abstract program model (docs-derived semantics), plus layout-invariance across emissions",
+    text="Exploration: ~3.7e4 (quick) / ~1.5e6 (thorough) executions of the real parser+renderer on programs drawn from a typed grammar of the built-in language, each emitted in several layouts (whitespace, markers, quoting, bracket/dot paths, echo/liquid forms, comments) under 12 configurations and compared with a reference interpreter that never parses Liquid text. Cases outside the documented domain are detected and skipped (counted).",
+    note="Trusted: the reference interpreter and its filter definitions (vf/ref), which encode docs/*.md and the compliance suite; undocumented corners are excluded from judgement (OutOfDomain), listed in DESIGN.md appendix A.",
+    ref="4/C01, 3, appendix A",
+)
+
 NOT_YET = {}
 
 def main():
